@@ -284,7 +284,7 @@ public:
                 ParallelUsingTBB> non_spanner_edges_cycle_builder(_g,
                 _weight_map, _spanner, _spanner_index_map, _edge_spanner_to_g,
                 spanner_weight_map, _non_spanner_edges, _vertex_g_to_spanner);
-        _weight += non_spanner_edges_cycle_builder(out);
+        _weight = non_spanner_edges_cycle_builder(out);
 
         return _weight;
     }
